@@ -54,6 +54,83 @@ theorem bsphere_intersects_iff (hs : LawfulSqrt sq) (c : V3 K) (r : K) (ray : Ra
   rw [h]
   simp only [SegMeets, e]
 
+/-! ## `BoundingSphere` (`ray_bounding_sphere.rs`): the ball casts on the ray translated by `-center` -/
+
+private theorem rayPt_translate (c : V3 K) (ray : Ray3 K) (t : K) :
+    rayPt sq (@Ray3.translate K (fieldNum K sq) ray (@V3.neg K (fieldNum K sq) c)) t =
+      @V3.sub K (fieldNum K sq) (rayPt sq ray t) c := by
+  simp only [rayPt, Ray3.pointAt, Ray3.translate, V3.add, V3.sub, V3.smul, V3.neg]
+  congr 1 <;> ring
+
+private theorem origin_translate (c : V3 K) (ray : Ray3 K) :
+    (@Ray3.translate K (fieldNum K sq) ray (@V3.neg K (fieldNum K sq) c)).o = @V3.sub K (fieldNum K sq) ray.o c := by
+  simp only [Ray3.translate, V3.add, V3.sub, V3.neg]
+  congr 1 <;> ring
+
+private theorem bsphere_toi (c : V3 K) (r : K) (ray : Ray3 K) (max : K) (solid : Bool) :
+    (@bsphereCastLocalRayAndGetNormal K (fieldNum K sq) c r ray max solid).map (·.toi) =
+      @Ball.castLocalRay K (fieldNum K sq) (Ball.mk r)
+        (@Ray3.translate K (fieldNum K sq) ray (@V3.neg K (fieldNum K sq) c)) max solid := by
+  simp only [bsphereCastLocalRayAndGetNormal]
+  exact ball_getNormal_toi sq _ _ max solid
+
+/-- **`BoundingSphere::cast_local_ray[_and_get_normal]`, solid**: first hit of the ball of radius `r` about `center` on
+`[0, max_toi]`, any non-zero direction -/
+theorem bsphere_cast_solid_firstHit (hs : LawfulSqrt sq) (c : V3 K) (r : K) (ray : Ray3 K) (max : K) :
+    letI := fieldNum K sq
+    0 < ray.d.normSq →
+    FirstHit (fun p => (Ball.mk r).Mem3 (p.sub c)) (rayPt sq ray) max
+      ((bsphereCastLocalRayAndGetNormal c r ray max true).map (·.toi)) := by
+  intro ha
+  rw [bsphere_toi]
+  have h := ball_cast_solid_firstHit sq hs (Ball.mk r)
+    (@Ray3.translate K (fieldNum K sq) ray (@V3.neg K (fieldNum K sq) c)) max ha
+  revert h
+  cases (@Ball.castLocalRay K (fieldNum K sq) (Ball.mk r)
+    (@Ray3.translate K (fieldNum K sq) ray (@V3.neg K (fieldNum K sq) c)) max true) <;>
+    simp only [FirstHit, rayPt_translate] <;> exact id
+
+/-- **`BoundingSphere` cast, origin outside (both `solid` flags)**: first hit, and a reported time is `> 0` -/
+theorem bsphere_cast_outside_firstHit (hs : LawfulSqrt sq) (c : V3 K) (r : K) (ray : Ray3 K) (max : K) (solid : Bool) :
+    letI := fieldNum K sq
+    0 < ray.d.normSq → ¬ (Ball.mk r).Mem3 (ray.o.sub c) →
+    FirstHit (fun p => (Ball.mk r).Mem3 (p.sub c)) (rayPt sq ray) max
+      ((bsphereCastLocalRayAndGetNormal c r ray max solid).map (·.toi)) ∧
+    ∀ t, (bsphereCastLocalRayAndGetNormal c r ray max solid).map (·.toi) = some t → 0 < t := by
+  intro ha hout
+  rw [bsphere_toi]
+  have hout' : ¬ @Ball.Mem3 K (fieldNum K sq) (Ball.mk r)
+      (@Ray3.translate K (fieldNum K sq) ray (@V3.neg K (fieldNum K sq) c)).o := by
+    rw [origin_translate]; exact hout
+  obtain ⟨h, h2⟩ := ball_cast_outside_firstHit sq hs (Ball.mk r)
+    (@Ray3.translate K (fieldNum K sq) ray (@V3.neg K (fieldNum K sq) c)) max solid ha hout'
+  refine ⟨?_, fun t ht => (h2 t ht).1⟩
+  revert h
+  cases (@Ball.castLocalRay K (fieldNum K sq) (Ball.mk r)
+    (@Ray3.translate K (fieldNum K sq) ray (@V3.neg K (fieldNum K sq) c)) max solid) <;>
+    simp only [FirstHit, rayPt_translate] <;> exact id
+
+/-- **`BoundingSphere` cast, `solid = false`, origin inside**: a reported time is `≤ max_toi` and is the exit parameter
+(`[0, t]` inside the ball, everything later outside); `None` ⇒ the whole segment stays inside -/
+theorem bsphere_cast_nonsolid_inside (hs : LawfulSqrt sq) (c : V3 K) (r : K) (ray : Ray3 K) (max : K) :
+    letI := fieldNum K sq
+    0 < ray.d.normSq → (Ball.mk r).Mem3 (ray.o.sub c) →
+    match (bsphereCastLocalRayAndGetNormal c r ray max false).map (·.toi) with
+    | some t => t ≤ max ∧ ExitHit (fun p => (Ball.mk r).Mem3 (p.sub c)) (rayPt sq ray) t
+    | none => ∀ u, 0 ≤ u → u ≤ max → (Ball.mk r).Mem3 ((rayPt sq ray u).sub c) := by
+  intro ha hin
+  rw [bsphere_toi]
+  have hin' : @Ball.Mem3 K (fieldNum K sq) (Ball.mk r)
+      (@Ray3.translate K (fieldNum K sq) ray (@V3.neg K (fieldNum K sq) c)).o := by
+    rw [origin_translate]; exact hin
+  have h := ball_cast_nonsolid_inside sq hs (Ball.mk r)
+    (@Ray3.translate K (fieldNum K sq) ray (@V3.neg K (fieldNum K sq) c)) max ha hin'
+  revert h
+  cases (@Ball.castLocalRay K (fieldNum K sq) (Ball.mk r)
+    (@Ray3.translate K (fieldNum K sq) ray (@V3.neg K (fieldNum K sq) c)) max false) with
+  | none => simp only [rayPt_translate]; exact fun h => h.1
+  | some t => simp only [ExitHit, rayPt_translate]; exact fun h => ⟨h.1, h.2.2⟩
+
 /-- **`Aabb::intersects_local_ray`** is true iff the segment meets the box (zero direction components allowed) -/
 theorem aabb_intersects_iff (big : K) (b : Aabb K) (ray : Ray3 K) (max : K) (hv : AabbValid b)
     (hmax0 : 0 ≤ max) (hmaxb : max ≤ big) :
